@@ -716,6 +716,12 @@ class Normaliser(ast.NodeTransformer):
         if isinstance(c.func, ast.Attribute) and c.func.attr == "appendleft" and len(c.args) == 1 and not c.keywords:
             return ast.copy_location(ast.Call(func=ast.Attribute(value=c.func.value, attr="insert", ctx=ast.Load()),
                                               args=[ast.Constant(value=0), c.args[0]], keywords=[]), c)
+        if isinstance(c.func, ast.Call) and self._is_partial(c.func.func) and c.func.args and not any(isinstance(a, ast.Starred) for a in c.func.args + c.args) \
+                and not any(k.arg is None for k in c.func.keywords + c.keywords):
+            # partial(F, a, k=b)(c)  ->  F(a, c, k=b)
+            later = set(k.arg for k in c.keywords)
+            kws = [k for k in c.func.keywords if k.arg not in later] + c.keywords
+            return ast.copy_location(ast.Call(func=c.func.args[0], args=list(c.func.args[1:]) + list(c.args), keywords=kws), c)
         if isinstance(c.func, ast.Name) and c.func.id == "len" and len(c.args) == 1 and not c.keywords and isinstance(c.args[0], ast.Constant) \
                 and isinstance(c.args[0].value, str):
             return ast.copy_location(ast.Constant(value=len(c.args[0].value)), c)
@@ -794,6 +800,25 @@ class Normaliser(ast.NodeTransformer):
     def visit_Expr(self, st):
         self.generic_visit(st)
         c = st.value
+        if isinstance(c, ast.YieldFrom) and isinstance(c.value, ast.GeneratorExp) and not any(g0.is_async for g0 in c.value.generators):
+            # yield from (E for v in L if c)   ->   for v in L: if c: yield E        (the statement's value is not used)
+            inner = ast.Expr(value=ast.Yield(value=c.value.elt))
+            for g0 in reversed(c.value.generators):
+                for cond in reversed(g0.ifs):
+                    inner = ast.If(test=cond, body=[inner], orelse=[])
+                inner = ast.For(target=g0.target, iter=g0.iter, body=[inner], orelse=[], lineno=st.lineno)
+            ast.copy_location(inner, st)
+            ast.fix_missing_locations(inner)
+            return inner
+        if isinstance(c, ast.YieldFrom) and isinstance(c.value, ast.Call) and isinstance(c.value.func, ast.Name) and c.value.func.id == "map" \
+                and len(c.value.args) == 2 and not c.value.keywords and _simple(c.value.args[0]):
+            # yield from map(f, L)   ->   for _item in L: yield f(_item)
+            inner = ast.For(target=ast.Name(id="_map_item", ctx=ast.Store()), iter=c.value.args[1],
+                            body=[ast.Expr(value=ast.Yield(value=ast.Call(func=c.value.args[0], args=[ast.Name(id="_map_item", ctx=ast.Load())], keywords=[])))],
+                            orelse=[], lineno=st.lineno)
+            ast.copy_location(inner, st)
+            ast.fix_missing_locations(inner)
+            return inner
         if isinstance(c, ast.Call) and isinstance(c.func, ast.Name) and c.func.id == "setattr" and len(c.args) == 3 and not c.keywords \
                 and isinstance(c.args[1], ast.Constant) and isinstance(c.args[1].value, str) and c.args[1].value.isidentifier():
             tgt = ast.copy_location(ast.Attribute(value=c.args[0], attr=c.args[1].value, ctx=ast.Store()), c)
@@ -1954,8 +1979,218 @@ class _ExpandPrivateDecorators(object):
         return res
 
 
+class _InlinePrivateProcedures(_InlinePrivateGenerators):
+    """`self._take_in(section, position)` / `_add(registry, klass, handler)` as a statement, or `x = self._prepared(a)` where the helper ends in its
+    only `return <expression>`: a small private helper of the same class, of a private base class defined in the same module, or of the module,
+    is its body with the parameters bound to renamed locals (an early bare `return` becomes the else branch of its test).  Not for helpers
+    the rules refer to by name (private_roles.json), recursive ones, generators, helpers with nested definitions, more than 25 statements, or
+    a `return` anywhere but at the very end."""
+    def __init__(self, tree):
+        _InlinePrivateGenerators.__init__(self, tree)
+        self.bases = {}
+        for st in tree.body:
+            if isinstance(st, ast.ClassDef):
+                self.bases[st.name] = [b.id for b in st.bases if isinstance(b, ast.Name)]
+
+    def visit_For(self, st):
+        return ast.NodeTransformer.generic_visit(self, st)
+
+    def _lookup(self, cls, name, seen=()):
+        if cls in seen or cls not in self.cls_funcs:
+            return None
+        if name in self.cls_funcs[cls]:
+            return self.cls_funcs[cls][name]
+        for b in self.bases.get(cls, []):
+            if b.startswith("_"):          # a private base class / mixin of this module
+                g = self._lookup(b, name, tuple(seen) + (cls,))
+                if g is not None:
+                    return g
+        return None
+
+    def _target(self, call):
+        f = call.func
+        if isinstance(f, ast.Name) and f.id.startswith("_") and not f.id.startswith("__") and f.id in self.mod_funcs:
+            g = self.mod_funcs[f.id]
+            return (g, None) if not g.decorator_list else None
+        if isinstance(f, ast.Attribute) and isinstance(f.value, ast.Name) and self.cls and self.fn is not None and self.fn.args.args \
+                and f.value.id == self.fn.args.args[0].arg and f.attr.startswith("_") and not f.attr.startswith("__") \
+                and not any(isinstance(d, ast.Name) and d.id in ("staticmethod", "classmethod") for d in self.fn.decorator_list):
+            g = self._lookup(self.cls, f.attr)
+            if g is None:
+                return None
+            if not g.decorator_list:
+                return (g, f.value)
+            if len(g.decorator_list) == 1 and isinstance(g.decorator_list[0], ast.Name) and g.decorator_list[0].id == "staticmethod":
+                return (g, None)
+        return None
+
+    def visit_Expr(self, st):
+        self.generic_visit(st)
+        r = self._inline(st, st.value, None)
+        return r if r is not None else st
+
+    def visit_Assign(self, st):
+        self.generic_visit(st)
+        if len(st.targets) == 1 and isinstance(st.targets[0], ast.Name):
+            r = self._inline(st, st.value, st.targets[0].id)
+            return r if r is not None else st
+        return st
+
+    def visit_If(self, st):
+        # `if self._settled(obj): return` where the helper answers True exactly where it has done the work: every `return True` of the helper
+        # ends the caller as well, its final `return False` falls through to the rest of the caller
+        self.generic_visit(st)
+        if st.orelse or len(st.body) != 1 or not isinstance(st.body[0], ast.Return) or self.fn is None or not isinstance(st.test, ast.Call):
+            return st
+        rv = st.body[0].value
+        if rv is not None and not (isinstance(rv, ast.Constant) and rv.value is None):
+            return st
+        call = st.test
+        if any(isinstance(a, ast.Starred) for a in call.args) or call.keywords:
+            return st
+        got = self._target(call)
+        if got is None:
+            return st
+        g, recv = got
+        body = _strip_doc(g.body)
+        if g is self.fn or _reviewed(g.name) or g.args.vararg or g.args.kwarg or g.args.kwonlyargs or g.args.posonlyargs or g.args.defaults or len(body) < 2:
+            return st
+        last = body[-1]
+        if not (isinstance(last, ast.Return) and isinstance(last.value, ast.Constant) and last.value.value is False):
+            return st
+
+        def ok_stmt(b):
+            if isinstance(b, ast.If) and not b.orelse and b.body and isinstance(b.body[-1], ast.Return):
+                r = b.body[-1]
+                return isinstance(r.value, ast.Constant) and r.value.value is True and \
+                    not any(isinstance(y, ast.Return) for x in b.body[:-1] for y in ast.walk(x))
+            return not any(isinstance(y, ast.Return) for y in ast.walk(b))
+        if not all(ok_stmt(b) for b in body[:-1]):
+            return st
+        if any(isinstance(y, (ast.Yield, ast.YieldFrom, ast.FunctionDef, ast.Lambda, ast.ClassDef, ast.Global, ast.Nonlocal, ast.Raise, ast.Import, ast.ImportFrom))
+               for b in body for y in ast.walk(b)):
+            return st
+        params = [a.arg for a in g.args.args]
+        pos = params[1:] if recv is not None else params
+        if len(call.args) != len(pos):
+            return st
+        self.counter += 1
+        tag = "_%s%d__" % (g.name.strip("_"), self.counter)
+        mapping = dict((n, tag + n) for n in _function_locals(g))
+        if recv is not None:
+            mapping[params[0]] = recv.id
+        stored = set(y.id for b in body for y in ast.walk(b) if isinstance(y, ast.Name) and isinstance(y.ctx, (ast.Store, ast.Del)))
+        binds, subst = [], {}
+        for p0, a in zip(pos, call.args):
+            if p0 not in stored and isinstance(a, (ast.Name, ast.Constant)):
+                subst[mapping[p0]] = a
+            else:
+                binds.append(ast.Assign(targets=[ast.Name(id=mapping[p0], ctx=ast.Store())], value=a, lineno=st.lineno))
+        out = list(binds)
+        for b in body[:-1]:
+            nb = _SubstExpr(subst).visit(_RenameLocals(mapping).visit(copy.deepcopy(b)))
+            if isinstance(nb, ast.If) and nb.body and isinstance(nb.body[-1], ast.Return):
+                nb.body[-1] = ast.Return(value=None)
+            out.append(nb)
+        _INLINED.append(g)
+        for r in out:
+            ast.copy_location(r, st)
+            ast.fix_missing_locations(r)
+        return out
+
+    def _inline(self, st, call, result_to):
+        if not isinstance(call, ast.Call) or self.fn is None or self.depth > 2:
+            return None
+        if any(isinstance(a, ast.Starred) for a in call.args) or any(k.arg is None for k in call.keywords):
+            return None
+        got = self._target(call)
+        if got is None:
+            return None
+        g, recv = got
+        if g is self.fn or _reviewed(g.name) or g.args.vararg or g.args.kwarg or g.args.kwonlyargs or g.args.posonlyargs:
+            return None
+        body = _strip_doc(g.body)
+        ret_expr = None
+        if result_to is not None:
+            if not body or not isinstance(body[-1], ast.Return) or body[-1].value is None:
+                return None
+            ret_expr = body[-1].value
+            body = body[:-1]
+        elif body and isinstance(body[-1], ast.Return) and body[-1].value is None:
+            body = body[:-1]
+        body = _early_return_as_else(body)
+        if any(isinstance(y, (ast.Yield, ast.YieldFrom, ast.Return, ast.FunctionDef, ast.Lambda, ast.ClassDef, ast.Global, ast.Nonlocal, ast.Await,
+                              ast.Import, ast.ImportFrom, ast.Raise))
+               for b in body for y in ast.walk(b)):
+            return None          # (a helper that imports late or that refuses stays a call: it is judged by its summary / contract)
+        if ret_expr is not None and any(isinstance(y, (ast.Yield, ast.YieldFrom, ast.Lambda, ast.Await)) for y in ast.walk(ret_expr)):
+            return None
+        if any(isinstance(y, ast.Call) and (getattr(y.func, "attr", None) == g.name or getattr(y.func, "id", None) == g.name)
+               for b in body + ([ast.Expr(value=ret_expr)] if ret_expr is not None else []) for y in ast.walk(b)):
+            return None
+        if len([y for b in body for y in ast.walk(b) if isinstance(y, ast.stmt)]) > 25:
+            return None
+        params = [a.arg for a in g.args.args]
+        bound = recv is not None
+        pos = params[1:] if bound else params
+        defaults = dict(zip(params[len(params) - len(g.args.defaults):], g.args.defaults))
+        kw = dict((k.arg, k.value) for k in call.keywords)
+        if len(call.args) > len(pos) or any(k not in pos for k in kw):
+            return None
+        self.counter += 1
+        tag = "_%s%d__" % (g.name.strip("_"), self.counter)
+        mapping = dict((n, tag + n) for n in _function_locals(g))
+        if bound:
+            mapping[params[0]] = recv.id
+        binds, subst = [], {}
+        stored = set(y.id for b in body for y in ast.walk(b) if isinstance(y, ast.Name) and isinstance(y.ctx, (ast.Store, ast.Del)))
+        for i, p0 in enumerate(pos):
+            if i < len(call.args):
+                if p0 in kw:
+                    return None
+                v = call.args[i]
+            elif p0 in kw:
+                v = kw[p0]
+            elif p0 in defaults:
+                v = copy.deepcopy(defaults[p0])
+            else:
+                return None
+            attrs_stored = set(y.attr for b in body for y in ast.walk(b) if isinstance(y, ast.Attribute) and isinstance(y.ctx, (ast.Store, ast.Del)))
+            n_reads = len([y for b in body + ([ast.Expr(value=ret_expr)] if ret_expr is not None else []) for y in ast.walk(b)
+                           if isinstance(y, ast.Name) and y.id == p0 and isinstance(y.ctx, ast.Load)])
+            is_partial = isinstance(v, ast.Call) and ((isinstance(v.func, ast.Name) and v.func.id == "partial") or
+                                                       (isinstance(v.func, ast.Attribute) and v.func.attr == "partial")) \
+                and all(_simple(a0) for a0 in v.args) and not v.keywords
+            if p0 not in stored and (isinstance(v, (ast.Name, ast.Constant)) or
+                                     (_simple(v) and not (set(y.attr for y in ast.walk(v) if isinstance(y, ast.Attribute)) & attrs_stored))):
+                subst[mapping[p0]] = v           # the same value wherever the helper reads the parameter
+            elif p0 not in stored and n_reads == 1 and (isinstance(v, ast.Lambda) or is_partial):
+                subst[mapping[p0]] = v           # behaviour handed in and used once: put in where it is applied
+            else:
+                binds.append(ast.Assign(targets=[ast.Name(id=mapping[p0], ctx=ast.Store())], value=v, lineno=st.lineno))
+        new_body = [_SubstExpr(subst).visit(_RenameLocals(mapping).visit(copy.deepcopy(b))) for b in body]
+        res = binds + new_body
+        if ret_expr is not None:
+            res.append(ast.Assign(targets=[ast.Name(id=result_to, ctx=ast.Store())],
+                                  value=_SubstExpr(subst).visit(_RenameLocals(mapping).visit(copy.deepcopy(ret_expr))), lineno=st.lineno))
+        _INLINED.append(g)
+        for r in res:
+            ast.copy_location(r, st)
+            ast.fix_missing_locations(r)
+        self.depth += 1
+        try:
+            out = []
+            for r in res:
+                v = self.visit(r)
+                out.extend(v if isinstance(v, list) else [v])
+        finally:
+            self.depth -= 1
+        return out
+
+
 _INLINED = []
 _REVIEWED = []
+_PROCEDURES = [__import__('os').environ.get('ODMLSA_PROCEDURES', '1') == '1']
 
 
 def _reviewed(name):
@@ -2005,6 +2240,8 @@ def normalise(tree):
     tree = _InlineContextManagers(tree).visit(tree)
     tree = _InlinePrivateGenerators(tree).visit(tree)
     tree = _InlineTableDrivenProcedures(tree).visit(tree)
+    if _PROCEDURES[0]:
+        tree = _InlinePrivateProcedures(tree).visit(tree)
     tree = _drop_dead_private_methods(tree, list(_INLINED))
     tree = _SpecialiseSelectors().visit(tree)
     ast.fix_missing_locations(tree)
